@@ -158,7 +158,14 @@ def stepDecode (st : St) (kind r dat src loc now : String) (rest : List String) 
       | some r, some dat, some src, some loc, some now =>
         let gateOk := kind = "dec" || isValidPacket Gen.C01Ssdp.ssdpPrefixes dat
         let st := { st with pending := some (parseBuiltRef rest, src), mutExpect := none }
-        if !gateOk then { st with lastRes := "drop", lastReg := r }
+        let neither := rest.contains "m=neither"     -- a protocol constructed without any callback: nothing to deliver to
+        if !gateOk then { st with lastRes := if neither then "nosink" else "drop", lastReg := r }
+        else if neither then
+          let (res, lru) := decodeCached st dat loc src now
+          { st with lru := lru, lastReg := r, pending := none,
+                    lastRes := match res with
+                      | .error e => if caught e then "nosink" else "EXC:" ++ exnTok e
+                      | .ok _ => "nosink" }
         else
           let (res, lru) := decodeCached st dat loc src now
           let st := { st with lru := lru, lastReg := r }
@@ -277,6 +284,7 @@ def stepOp (st : St) (toks : List String) : St :=
        | none => st)
     | ["ok"] => st
     | ["KeyError"] => st
+    | ["nosink"] => { st with fresh := st.fresh.set! st.lastReg none, pending := none }
     | _ =>
       -- the implementation produced no result: a violation when the datagram was built from a
       -- well-formed header map
